@@ -789,13 +789,20 @@ impl<E: Effect> Executor<E> {
             return Ok(());
         }
 
-        // Inject heap data into the result value
-        let injected_result = self.inject_heap_data(result, &heap)?;
+        // Neither has an awaiter that no longer lists the process: the result is owed to a select
+        // that is over (its table is cleared when a select completes), and the next select that
+        // lists the process asks again. Only the wake-up below still happens (the report may be
+        // all the awaiter's current select is told in this round).
+        let listed = self
+            .get_process(awaiter)
+            .is_some_and(|p| p.awaiting.contains_key(&awaited));
 
         // Store the result in the process's awaiting map (retaining as it enters storage).
         // A result can be delivered more than once (one registration per select that listed the
         // process); the copy it replaces leaves storage here and must be released.
-        if self.get_process(awaiter).is_some() {
+        if listed {
+            // Inject heap data into the result value
+            let injected_result = self.inject_heap_data(result, &heap)?;
             self.retain(&injected_result);
             let process = self.get_process_mut(awaiter).unwrap();
             if answers_query {
@@ -2799,6 +2806,17 @@ impl<E: Effect> Executor<E> {
             .get_process_mut(pid)
             .ok_or(Error::InvalidArgument("Process not found".to_string()))?;
         process.stack.push(result);
+
+        // The awaited results are read only while the select is evaluated: release the copies
+        // kept for it (after the yielded one has been retained on the stack), or a long-lived
+        // awaiter accumulates one per process it ever awaited.
+        let awaited = std::mem::take(&mut process.awaiting);
+        for value in awaited.values().flatten() {
+            self.release(value);
+        }
+        let process = self
+            .get_process_mut(pid)
+            .ok_or(Error::InvalidArgument("Process not found".to_string()))?;
 
         // Increment frame counter
         if let Some(frame) = process.frames.last_mut() {
